@@ -734,6 +734,8 @@ class SymDim:
         self.name = name
 
     def poly(self):
+        if self.name in UNIT_AXES:
+            return Poly.const(1)
         return Poly.atom(('K', self.name))
 
     def __add__(self, o): return self.poly() + lift(o)
@@ -767,6 +769,8 @@ class SymDim:
             # extents of two DIFFERENT axes: generic (unrelated) unless a configuration declares both and they coincide
             ea, eb = AXIS_EXTENT.get(self.name), AXIS_EXTENT.get(o.name)
             return ea is not None and eb is not None and ea == eb
+        if self.name in UNIT_AXES and isinstance(o, (int, Poly)):
+            return lift(o) == Poly.const(1)           # the configuration declares this row axis to have exactly one row
         if isinstance(o, (int, Poly)): return False   # a row axis is never a small literal extent
         return NotImplemented
     def __ne__(self, o): return not self.__eq__(o)
@@ -1299,6 +1303,8 @@ def bind(kind, ax, p):
     """linear binder over the symbolic axis `ax`, factoring out what does not depend on it.
     One normal form: a mean over a named axis is the sum over it divided by its extent (so that `mean(x)` and `sum(x) / n`,
     n = x.shape[0], are the same polynomial)"""
+    if ax in UNIT_AXES:
+        return p                    # a single row: its sum and its mean are the row itself
     if kind == 'Mean':
         return bind('Sum', ax, p) * (SymDim(ax).poly() ** -1)
     res = Poly()
@@ -1416,11 +1422,11 @@ def jnp_squeeze(a, axis=None):
     if axis is not None:
         axs = {x % nd for x in _axes_list(axis, nd)}
         for x in axs:
-            if a.axes[x] != 1:
+            if a.axes[x] != 1 and a.axes[x] not in UNIT_AXES:
                 raise Finding(f"squeeze of axis {x} whose size is {a.axes[x]}")
     else:
         axs = None
-    keep = [i for i, x in enumerate(a.axes) if not (x == 1 and (axs is None or i in axs))]
+    keep = [i for i, x in enumerate(a.axes) if not ((x == 1 or x in UNIT_AXES) and (axs is None or i in axs))]
     ax = tuple(a.axes[i] for i in keep)
     return AT(ax, a.data.reshape(tuple(x for x in ax if isinstance(x, int))))
 
@@ -1635,10 +1641,46 @@ def jnp_reshape(a, shape):
 
 
 AXIS_EXTENT = {}      # name of a count axis -> the polynomial it was named after
+class _UnitAxes(set):
+    """the declared single-row axes; counts how often one of them was met (a configuration that never meets one is the
+    general configuration)"""
+    hits = 0
+
+    def __contains__(self, x):
+        try:
+            r = set.__contains__(self, x)
+        except TypeError:
+            return False
+        if r:
+            self.hits += 1
+        return r
+
+
+UNIT_AXES = _UnitAxes()     # named row axes that the current configuration declares to have exactly one row (see unit_axes)
+
+
+class unit_axes:
+    """configuration 'a batch of a single row': within the block the named axes have extent 1 - their sum / mean is the row,
+    `squeeze()` without axis removes them, their extent compares equal to 1.  Everything else (row atoms, vmap) is unchanged: a
+    formula that is right for every batch size is right for this one"""
+
+    def __init__(self, *names):
+        self.names = set(names)
+
+    def __enter__(self):
+        self.added = self.names - UNIT_AXES
+        UNIT_AXES.update(self.added)
+        return self
+
+    def __exit__(self, *exc):
+        UNIT_AXES.difference_update(self.added)
+        return False
 
 
 def axis_extent(name):
     """extent of a named axis as a polynomial"""
+    if name in UNIT_AXES:
+        return Poly.const(1)
     return AXIS_EXTENT.get(name, Poly.atom(('K', name)))
 
 
